@@ -57,7 +57,9 @@ var allIDs = struct {
 	m map[int]string
 }{m: map[int]string{}}
 
-var lineRe = regexp.MustCompile(`^\[(trace|warn|error)\] \d{4}/\d{2}/\d{2} \d{2}:\d{2}:\d{2}\.\d{6} (.*)\n$`)
+// '<level label><timestamp> rest': the timestamp is whatever date/time fields the logger prints
+// (digits and / : . separated by spaces), not a fixed format
+var lineRe = regexp.MustCompile(`^\[(trace|warn|error)\] ((?:[0-9][0-9/:.]* )+)(.*)\n$`)
 var prefRe = regexp.MustCompile(`^\[(\d+)\](?:\[(-?\d+)\])? *(.*)$`)
 
 type expect struct {
@@ -242,7 +244,7 @@ func runCase(c Case) (st stats, err error) {
 		if m[1] != e.level {
 			return st, fmt.Errorf("line %q has label %s, the call was %s", l, m[1], e.level)
 		}
-		rest := m[2]
+		rest := m[3]
 		wantMsg := e.tok + " " + e.msg
 		if e.kind == "plain" {
 			// a context without an id: only the wholeness of the line is required
